@@ -182,6 +182,14 @@ func (w *Writer) Write(m Message) (int64, error) {
 	return w.writer(m)
 }
 
+// CheckSize reports whether Write accepts m: key and value together are limited to 64 MiB.
+func CheckSize(m Message) error {
+	if len(m.Key)+len(m.Value) > maxMessageBodySize {
+		return fmt.Errorf("message too big")
+	}
+	return nil
+}
+
 const (
 	v1HeaderSize = 8 + 8 + 4 + 4 + 4 // 28: offset + unixmicro + keylen + valuelen + crc
 )
